@@ -20,7 +20,11 @@ Classes : every flavour of enumeration (Enum, Flag, IntEnum, StrEnum, IntFlag; a
           combinations, the empty flag, named combinations) and every notation `str` of a Decimal can produce (infinities, quiet
           and signalling NaNs with payloads, negative zero, exponents), at the top level and nested in beans and containers;
           members of enumerations derived from a primitive type are "transmitted as that primitive" (judged by the monitor only,
-          the model has no such class).  The class table in force is built by a *program* on a real LocalClasses object
+          the model has no such class).  ADVERSARIAL enumerations (jcenv.gen_adversarial_enum_spec, histogram keys
+          `enum-adversarial/<pattern>/<collision>`): plain Enums whose values are names of other members or of their aliases,
+          `str`/`repr` of other members, positions of other members (ints, digits), attribute names of the class, numbers equal
+          across types, and containers holding such things — the only correct reading of the transmitted `[value]` is "the member
+          with this value"; each direction (dump→load, parameter, result) is judged on its own, a double swap cannot hide.  The class table in force is built by a *program* on a real LocalClasses object
           (jcenv.registry_program: stale definitions and other classes registered under the name first, re-registrations,
           removals, aliases, clear(), explicit / empty / omitted names, direct stores), compared with `LocalClasses.run`
           (component `jcregistry`), handed to jsonclass.load as `classes=` and installed in Config.classes of both peers.
@@ -113,6 +117,8 @@ def describe(v, env, depth=0):
         return "p"
     s = env.by_id[h[0]]
     kind = s["kind"] if s["kind"] != "enum" else "enum:%s:%s" % (s.get("flavour", "Enum"), jcenv.enum_member_class(v))
+    if s.get("pattern"):
+        kind = "enum:adversarial:%s:%s" % (s["pattern"], jcenv.adversarial_member_class(v))
     if s["kind"] == "decimal":
         kind = "decimal:" + jcenv.decimal_class(v)
     shape = "%s/%s/d%d/%s" % (kind, "slots" if s["slots"] is not None else "dict", len(s["bases"]),
@@ -158,6 +164,9 @@ def note_specials(ctx, v, env):
             ctx.hist["decimal/" + jcenv.decimal_class(n)] += 1
         elif isinstance(n, enum.Enum) and type(n) in env.ids:
             ctx.hist["enum/%s/%s" % (env.by_id[env.ids[type(n)]].get("flavour", "Enum"), jcenv.enum_member_class(n))] += 1
+            pattern = env.by_id[env.ids[type(n)]].get("pattern")
+            if pattern:
+                ctx.hist["enum-adversarial/%s/%s" % (pattern, jcenv.adversarial_member_class(n))] += 1
 
 
 # ---- run-time ties in which no extractor is involved ----------------------------------------------------------------------
@@ -361,7 +370,7 @@ def run(ctx):
         method = names[0] if ctx.rng.random() < 0.8 else "_serialize"
         specs = jcenv.gen_specs(ctx.rng, gen, tag, ignore_attr=names[1], method=method,
                                 with_ignore=0.5 if custom else 0.0,
-                                local_ratio=ctx.rng.choice([0.0, 0.35, 0.35, 1.0]), flavours=True)
+                                local_ratio=ctx.rng.choice([0.0, 0.35, 0.35, 1.0]), flavours=True, adversarial=0.8)
         env = jcenv.Env(specs).install()
         try:
             _run_env(ctx, env, custom, names, per_env, lines, expect)
